@@ -435,10 +435,17 @@ def oracle(c, r):
         iv = c["interval"]
         keep = [e for e in r["each"] if iv is None or iv[0] <= e["l"] <= iv[1]]
         got = r["set"]
-        if len(got) != len(keep) or any(g["dev"] != e["dev"] or g["p"] != e["p"] for g, e in zip(got, keep)):
+        if len(got) != len(keep) or any(g["dev"] != e["dev"] or g["p"] != e["p"] or g["n"] != e["n"] for g, e in zip(got, keep)):
             yield ("lsd-contents", "line_surface_deviations kept %d deviations %r; the points whose closest station lies in %r give %d: %r" % (
                 len(got), [g["dev"] for g in got][:8], iv, len(keep), [e["dev"] for e in keep][:8]))
             return
+        # every deviation held in the set gives back its measured point: reference + direction * value
+        for g, e in zip(got, keep):
+            q = e["q"]
+            rec = [g["p"][i] + g["n"][i] * g["dev"] for i in range(2)]
+            if abs(g["dev"]) > 2e-6 and math.dist(rec, q) > 1e-9 * max(1.0, abs(q[0]), abs(q[1])):
+                yield ("lsd-reconstruct", "the set holds reference %r, direction %r, value %r for the measured point %r: they give back %r" % (g["p"], g["n"], g["dev"], q, rec))
+                return
         vals = [g["dev"] for g in got]
         if vals:
             if r["max"] != max(vals) or r["min"] != min(vals):
